@@ -34,6 +34,10 @@ let rec parse_cnode (toks : string list) : node * string list =
   match toks with
   | "Empty" :: t -> (NEmpty, t)
   | "Goal" :: t -> (NGoal, t)
+  | "Char" :: c :: t -> (NChar (nn c), t)
+  | "CSet" :: k :: t -> let (a, r) = take (ios k) t in (NCharSet (List.map nn a), r)
+  | "Any" :: t -> (NMatchAny, t)
+  | "AnyNL" :: t -> (NMatchAnyExceptLT, t)
   | "Anchor" :: s :: m :: t -> (NAnchor (bos s, bos m), t)
   | "Brk" :: inv :: k :: t -> let (a, r) = take (2 * ios k) t in (NBracket { br_invert = bos inv; br_ivs = pairs a }, r)
   | "SS" :: ic :: k :: t ->
@@ -95,7 +99,7 @@ let run () =
   let cases = ref 0 and runs = ref 0 and pviol = ref 0 and nontrivial = ref 0 and fuelout = ref 0 and rej = ref 0 in
   let id = ref "" and pat = ref "" and flags = ref "" and ngroups = ref 0 and unicode = ref false in
   let re : regex option ref = ref None in
-  let jn = ref 0 and mism = ref 0 and kn = ref 0 in
+  let jn = ref 0 and mism = ref 0 and kn = ref 0 and an = ref 0 in
   let fuel = nat_of_int_big 600 in
   (try while true do
     let line = input_line stdin in
@@ -105,6 +109,14 @@ let run () =
     | "J" :: toks ->
       (* S1 (class sets): the IR of the class against the model of the parser's class set evaluation *)
       (match !re, fst (parse_cnode toks) with
+       | Some (RSeq (_, RSeq (RChar (c, ic), _))), NCat [NCat [_; x; _]; NGoal] ->
+         incr an;
+         (match char_node ic !unicode c with
+          | Ok m when m = x -> ()
+          | _ -> incr mism; Printf.printf "MISMATCH stage=S1-atom case=%s pat=%s flags=%s detail=model-of-char_node-differs\n" !id !pat !flags)
+       | Some (RSeq (_, RSeq (RAny d, _))), NCat [NCat [_; x; _]; NGoal] ->
+         incr an;
+         if dot_node d <> x then begin incr mism; Printf.printf "MISMATCH stage=S1-atom case=%s pat=%s flags=%s detail=model-of-dot-differs\n" !id !pat !flags end
        | Some (RSeq (_, RSeq (RVClass (e, ic), _))), NCat [NCat [_; x; _]; NGoal] ->
          incr jn;
          let m = class_node ic e in
@@ -170,4 +182,4 @@ let run () =
     | [] -> ()
     | _ -> failwith ("bad line: " ^ line)
   done with End_of_file -> ());
-  Printf.printf "SUMMARY cases=%d runs=%d mismatches=%d nontrivial=%d propviol=%d inconclusive=%d rejected=%d classset_irs=%d negated_class_decisions=%d\n" !cases !runs !mism !nontrivial !pviol !fuelout !rej !jn !kn
+  Printf.printf "SUMMARY cases=%d runs=%d mismatches=%d nontrivial=%d propviol=%d inconclusive=%d rejected=%d classset_irs=%d negated_class_decisions=%d atom_irs=%d\n" !cases !runs !mism !nontrivial !pviol !fuelout !rej !jn !kn !an
